@@ -5,11 +5,15 @@
 -/
 import SoyVerif.Ops.Common
 import SoyVerif.Ops.RawText
+import SoyVerif.Ops.Ast
+import SoyVerif.Ops.Parser
 
 open SoyVerif SoyVerif.Ops
 
 def allOps : List Op :=
-  Ops.RawText.ops
+  Ops.RawText.ops ++
+  Ops.Ast.ops ++
+  Ops.Parser.ops
 
 def handle (op : String) (f : List String) : String :=
   match allOps.find? (·.1 == op) with
